@@ -144,9 +144,21 @@ HW_GETTERS = {
     'gpc': ['Avtp_Gpc_GetGpcMsgId', 'Avtp_Gpc_GetAcfMsgLength'],
 }
 
-HW_LOOP = ('INV: 1 == 1\n'
-           'ASG: proc_bytes, res, __CPROVER_object_whole(pdu), udp_pdu, udp_seq_num, cf_pdu, subtype, msg_length, acf_pdu, acf_type, gpc_code, acf_msg_length, recd_msg, vp_env_failed\n')
-HW_SYMS = ['proc_bytes', 'res', 'pdu', 'udp_pdu', 'udp_seq_num', 'cf_pdu', 'subtype', 'msg_length', 'acf_pdu', 'acf_type', 'gpc_code', 'acf_msg_length', 'recd_msg']
+# the loop contract claims nothing about the locals, so its frame is "every local of main" (computed from the goto symbol
+# table of the tree as it is: adding or renaming a local cannot break the obligation) plus the environment ghost
+MAIN_LOOP = 'INV: 1 == 1\nASG: vp_env_failed\n'
+MAIN_SYMS = ['::vp_env_failed']
+
+
+def _first_iteration_fallback(primary_name, src, fn, repl, own, inc, config, function):
+    """Used when the loop contract cannot be attached to the receive loop as written now: the loop is unwound once
+    WITHOUT an unwinding assertion (it never terminates), i.e. the FIRST datagram is processed from CBMC's
+    nondeterministic initial state (uninitialised locals and buffer are arbitrary).  Bounded stand-in."""
+    return Job(primary_name + '~first-iteration-fallback', src, [], enforce=fn, replace=repl, owners=own, clause_map=_tags(src),
+               function=function, kind='example-fallback', config=config, includes=inc, timeout=1800, obj_bits=10,
+               unwind={fn: 1}, no_unwinding_assertions=True, assumptions=MAIN_ASSUME,
+               bounded='BOUNDED FALLBACK (loop contract not attachable): the receive loop is unwound once without an unwinding '
+                       'assertion - only the first datagram, from a nondeterministic initial state of all uninitialised locals')
 
 
 def hello_world_job(model, tier, config='le'):
@@ -161,12 +173,84 @@ def hello_world_job(model, tier, config='le'):
            '    int r = vp_hw_listener_main(1, argv);\n'
            '    VP_CANARY();\n}\n')
     repl = [g for v in HW_GETTERS.values() for g in v] + ['recv']
-    return Job('examples/hello-world-listener/main-receive-loop', src, [], enforce='vp_hw_listener_main', replace=repl,
-               loop_contracts={'vp_hw_listener_main': [{'template': HW_LOOP, 'symbols': HW_SYMS}]},
+    own = {'post': ['C18'], 'safety': ['C18'], 'assigns': ['C18'], 'loop': ['C18'], 'assert': ['C18'], 'unwind': ['C18']}
+    fb = _first_iteration_fallback('examples/hello-world-listener/main-receive-loop', src, 'vp_hw_listener_main', repl, own, inc, config,
+                                   'hello-world-listener.c:main(receive loop)')
+    return Job('examples/hello-world-listener/main-receive-loop', src, [], enforce='vp_hw_listener_main', replace=repl, fallback=fb,
+               loop_contracts={'vp_hw_listener_main': [{'template': MAIN_LOOP, 'symbols': MAIN_SYMS, 'all_locals': True}]},
                owners={'post': ['C18'], 'safety': ['C18'], 'assigns': ['C18'], 'loop': ['C18'], 'assert': ['C18'], 'unwind': ['C18']}, clause_map=_tags(src),
                function='hello-world-listener.c:main(receive loop)', kind='example', config=config, includes=inc, timeout=1800,
                obj_bits=10, assumptions=MAIN_ASSUME)
 
 
+VSS_GETTERS = {
+    'udp': ['Avtp_Udp_GetEncapsulationSeqNo'], 'common': ['Avtp_CommonHeader_GetSubtype'],
+    'tscf': ['Avtp_Tscf_GetStreamDataLength'], 'ntscf': ['Avtp_Ntscf_GetNtscfDataLength'],
+    'acf_common': ['Avtp_AcfCommon_GetAcfMsgType'],
+    'vss': ['Avtp_Vss_GetAcfMsgLength', 'Avtp_Vss_GetAddrMode', 'Avtp_Vss_GetDatatype'],
+}
+
+# Client-side contracts of the two VSS decoders exactly as the listener uses them (static-id path, float value).  They
+# carry no ghosts, so their preconditions can be checked at the call sites inside the listener; each is itself ENFORCED on
+# the real library function (obligations .../vss-decoder-as-used-*), so nothing about the decoders is assumed.
+VSS_SAFE = r"""
+#include "vp_spec.h"
+#define VP_L_MODE(pdu) vp_get_bits((pdu)->header, 19, 2)
+#define VP_L_PSZ(pdu) (VP_L_MODE(pdu) == 1u ? 4u : 2u + (unsigned)vp_be16((uint8_t *)(pdu) + 12))
+void vp_safe_GetVssPath_static(Avtp_Vss_t* pdu, VssPath_t* val)
+__CPROVER_requires(__CPROVER_r_ok(pdu, 16) && VP_L_MODE(pdu) == 1u && __CPROVER_w_ok(val, sizeof(VssPath_t)))
+__CPROVER_assigns(val->vss_static_id_path)
+__CPROVER_ensures(val->vss_static_id_path == vp_be32((uint8_t *)pdu + 12))
+;
+void vp_safe_GetVssData_float(Avtp_Vss_t* pdu, VssData_t* val)
+__CPROVER_requires(__CPROVER_r_ok(pdu, 14) && VP_L_MODE(pdu) <= 1u && vp_get_bits(pdu->header, 24, 8) == 9u)
+__CPROVER_requires(VP_L_PSZ(pdu) <= 2040u && __CPROVER_r_ok(pdu, 12u + VP_L_PSZ(pdu) + 4u) && __CPROVER_w_ok(val, sizeof(VssData_t)))
+__CPROVER_assigns(__CPROVER_object_upto((uint8_t *)&val->data_float, 4))
+;
+Vss_Datatype_t vp_dt_GetDatatype(Avtp_Vss_t* pdu)
+__CPROVER_requires(__CPROVER_r_ok(pdu, 12) && vp_get_bits(pdu->header, 24, 8) == 0x09u)
+__CPROVER_assigns()
+__CPROVER_ensures(__CPROVER_return_value == (Vss_Datatype_t)0x09)
+;
+"""
+
+
+def vss_listener_jobs(model, tier, config='le'):
+    import gen_contracts as G
+    inc = [os.path.join(REPO, 'examples')]
+    jobs = []
+    own = {'post': ['C18'], 'safety': ['C18'], 'assigns': ['C18'], 'loop': ['C18'], 'assert': ['C18'], 'unwind': ['C18']}
+    src = (G.PRELUDE + ENV3 + _gen(model, VSS_GETTERS) + '#include "avtp/acf/custom/Vss.h"\n' + VSS_SAFE +
+           '#define main vp_vss_listener_main\n#include "acf-vss/acf-vss-listener.c"\n#undef main\n'
+           'int vp_vss_listener_main(int argc, char *argv[])\n'
+           '__CPROVER_assigns(vp_env_failed)\n'
+           '__CPROVER_ensures(vp_env_failed == 1) /*TAG C18:listener-leaves-its-receive-loop-only-if-a-system-call-failed(any-datagram-is-survived)*/\n;\n'
+           'void harness(void)\n{\n    use_udp = nondet_int(); vp_env_failed = 0;\n    char *argv[1] = { 0 };\n'
+           '    int r = vp_vss_listener_main(1, argv);\n'
+           '    VP_CANARY();\n}\n')
+    repl = [g for v in VSS_GETTERS.values() for g in v] + ['recv', 'Avtp_Vss_GetVssPath/vp_safe_GetVssPath_static',
+                                                            'Avtp_Vss_GetVssData/vp_safe_GetVssData_float']
+    fb = _first_iteration_fallback('examples/acf-vss-listener/main-receive-loop', src, 'vp_vss_listener_main', repl, own, inc, config,
+                                   'acf-vss-listener.c:main(receive loop)')
+    jobs.append(Job('examples/acf-vss-listener/main-receive-loop', src, [], enforce='vp_vss_listener_main', replace=repl, fallback=fb,
+                    loop_contracts={'vp_vss_listener_main': [{'template': MAIN_LOOP, 'symbols': MAIN_SYMS, 'all_locals': True}]},
+                    owners=own, clause_map=_tags(src), function='acf-vss-listener.c:main(receive loop)', kind='example', config=config,
+                    includes=inc, timeout=1800, obj_bits=10, assumptions=MAIN_ASSUME))
+    # the decoder contracts used above, enforced on the real library functions (buffer of symbolic size allocated by the harness:
+    # the preconditions pin its size to exactly what the contract promises, so any access beyond it is a failed obligation)
+    pre = (G.PRELUDE + _gen(model, {'vss': ['Avtp_Vss_GetAddrMode']}) + '#include "avtp/acf/custom/Vss.h"\n' + VSS_SAFE)
+    hbody = ('void harness(void)\n{\n    size_t n = nondet_size(); __CPROVER_assume(n >= 12 && n <= 2100);\n'
+             '    uint8_t *buf = malloc(n); __CPROVER_assume(buf != NULL);\n    %s v;\n    %s((Avtp_Vss_t *)buf, &v);\n    VP_CANARY();\n}\n')
+    srcs = ['src/avtp/acf/custom/Vss.c', 'src/avtp/Utils.c']
+    for nm, fn, cn, ty, repl2 in (
+            ('static-id-path', 'Avtp_Vss_GetVssPath', 'vp_safe_GetVssPath_static', 'VssPath_t', ['Avtp_Vss_GetAddrMode']),
+            ('float-value', 'Avtp_Vss_GetVssData', 'vp_safe_GetVssData_float', 'VssData_t', ['Avtp_Vss_GetAddrMode', 'Avtp_Vss_GetDatatype/vp_dt_GetDatatype'])):
+        s2 = pre + hbody % (ty, fn)
+        jobs.append(Job('examples/acf-vss-listener/vss-decoder-as-used-%s' % nm, s2, srcs, enforce='%s/%s' % (fn, cn), replace=repl2,
+                        owners=own, clause_map=_tags(s2), function=fn, kind='example', config=config, timeout=900, obj_bits=10,
+                        assumptions=['the contract instance of Avtp_Vss_GetDatatype at code 0x09 is enforced on the real getter by obligation Avtp_Vss_GetDatatype/at-0x09 (C07/C08)']))
+    return jobs
+
+
 def main_loop_jobs(model, tier, config='le'):
-    return [hello_world_job(model, tier, config)]
+    return [hello_world_job(model, tier, config)] + vss_listener_jobs(model, tier, config)
